@@ -33,7 +33,9 @@ class C02(verif.Spec):
     comp = "fmt"
     lean_modules = ["ZvbiModel.Props.C02", "ZvbiModel.Props.C02Roundtrip", "ZvbiModel.Props.C02Interleave",
                     "ZvbiModel.Props.C02Serial", "ZvbiModel.Props.C02Chain", "ZvbiModel.Props.C02Std",
-                    "ZvbiModel.Props.C02Flof", "ZvbiModel.Props.C02Hdr", "ZvbiModel.Props.C02Sender"]
+                    "ZvbiModel.Props.C02Flof", "ZvbiModel.Props.C02Hdr", "ZvbiModel.Props.C02Sender",
+                    "ZvbiModel.Props.C02Own", "ZvbiModel.Props.C02SerialCycle", "ZvbiModel.Props.C02SerialCycleFetch",
+                    "ZvbiModel.Props.C02Esc"]
     harness = "fmt_harness"
     harness_link_lib = True
     timeout_per_case = 10.0
@@ -48,15 +50,27 @@ class C02(verif.Spec):
                     "page_roundtrip_serial, page_roundtrip_serial_fetch); whole cycles of transmissions of one magazine from a fresh "
                     "decoder, with packets of the other seven magazines interleaved, are proved in Props/C02Chain "
                     "(page_roundtrip_cycle, page_roundtrip_chain; the TextPage hypothesis is discharged by the invariant "
-                    "text_only_invariant; sender side with the concrete Hamming 8/4 encoder: Props/C02Sender page_roundtrip_sender) - "
-                    "not proved: cycles in serial mode, own X/26 / X/27 / X/28 packets inside a transmission of a cycle; "
-                    "Level 2.5/3.5 enhancement, X/26, TOP navigation, zap_links are not modelled.")
+                    "text_only_invariant; sender side with the concrete Hamming 8/4 encoder: Props/C02Sender page_roundtrip_sender); "
+                    "round 6: whole cycles in MAGAZINE-SERIAL mode over several magazines, every page terminated by the next header of "
+                    "any magazine (Props/C02SerialCycle page_roundtrip_cycle_serial, page_roundtrip_cycle_serial_fetch); the page's own "
+                    "X/26, X/27, X/28 (not X/28/3), M/29 packets are admitted between its rows in the parallel-mode cycle theorems "
+                    "(Item.ownx; Props/C02Own own_aux_keeps_rows, own_x27_links_in_progress) - "
+                    "the cache entry carries the FLOF links / X/28 record of the page in progress at termination (page_roundtrip_cycle_links); "
+                    "ESC toggle per row and second G0 set designation (Props/C02Esc) - "
+                    "not proved: that later packets of the same transmission keep the links an own X/27 filed; own X/26..M/29 packets and the "
+                    "link clause inside a SERIAL-mode cycle; Level 2.5/3.5 enhancement, TOP navigation, zap_links, vbi_resolve_link are not modelled.")
     open_statements = ["Zvbi.Props.C02.format_refines_L1Spec_full (false on the unchanged tree: see ..._counterexample)",
                        "Zvbi.Props.C02.page_roundtrip_full (round-1 wording of the sender-side statement; SUPERSEDED: the receiver-side statement "
                        "C02Serial.page_roundtrip_chain_full is now the theorem C02Chain.page_roundtrip_chain, and the sender-side form with a concrete "
                        "Hamming 8/4 / odd-parity encoder is the theorem C02Sender.page_roundtrip_sender. The round-1 def itself stays unproved: its "
                        "`WellFormed.header_ok` does not say that the three digits at `off` ARE the page number, so as worded it does not follow; it also "
-                       "asks for the exact sub-code look-up of the last page only, which page_roundtrip_cycle clause 3 gives for every page)"]
+                       "asks for the exact sub-code look-up of the last page only, which page_roundtrip_cycle clause 3 gives for every page)",
+                       "links_of_last_x27_fetched (not stated as a def; round 6): PROVED: the cache entry of a transmission carries link[] / have_flof / "
+                       "x28_designations / extension of the page in progress at the moment its terminating header arrives (C02Own.page_roundtrip_cycle_links, "
+                       "clause 5 of C02Chain.PageClaim) and an own X/27/0 files the links as sent (C02Own.own_x27_links_in_progress); MISSING: that the rows / X/26 / "
+                       "X/28 / foreign packets following that X/27 in the same transmission keep link[] (AuxKept does not state it; a reachability bound "
+                       "6 <= link.length is also needed), and both clauses for the serial-mode cycle (C02SerialCycle has rows only) - judged by the "
+                       "network oracle (FLOF links, X/28/0 pages)"]
     assumptions = ["consistent page header across the network (header columns 8-31 equal except the page number)",
                    "regular frame timestamps (40 ms)", "no X/26, M/29 packets (X/28/0 format 1 with page function LOP is sent); no MOT/MIP/TOP pages",
                    "page numbers decimal 100-899, subpages 00-79"]
@@ -202,7 +216,7 @@ class C02(verif.Spec):
                     links.append((lm * 256 + lp, rng.choice([0x3F7F, 0, 1, rng.randrange(0x4000) & 0x3F7F])))
                 x27 = (links, rng.choice([0x8, 0xF, 0x0, 0x7]))
             t = F.Transmission(m, page, subno, c4, c5, c6, ctl, text32, rows, which, x27)
-            if not single and not inter and rng.random() < 0.2:
+            if not single and rng.random() < 0.2:
                 # X/28/0 format 1 (page function LOP, parity coding): the page's own character set designation and
                 # colour table re-mapping; applies at Level 1 / 1.5 too (teletext.c `x28_designations & 0x11`)
                 t.x28 = (rng.choice([0, 8, 16, 0x20, 0x21, 0x24, 0x25, 0x37, 0x40, 0x47, 0x55, 0x57, rng.randrange(128)]),
